@@ -219,18 +219,27 @@ Fixpoint type_tuple_scan (cnt : nat) (l : list TokenKind) (depth : nat) : bool :
   end.
 Definition type_tuple_ahead (st : pstate) : bool := type_tuple_scan (MAX_LOOKAHEAD - 1) (kinds_from st 1) 0.
 
-(* is_tuple_expr: `for i in 1..` (unbounded; ends at None because the token list is finite) *)
-Fixpoint tuple_expr_scan (l : list TokenKind) (depth : nat) : bool :=
+(* is_tuple_expr: `for i in 1..` (unbounded; ends at None because the token list is finite).
+   depth = nesting of ( [ { inside the parenthesis, in_lambda = between the two bars of a lambda's parameter list at
+   depth 0; only a comma at depth 0 outside such bars makes the parenthesis a tuple *)
+Fixpoint tuple_expr_scan (l : list TokenKind) (depth : nat) (in_lambda : bool) : bool :=
   match l with
   | [] => false
-  | KParenBegin :: r => tuple_expr_scan r (S depth)
-  | KParenEnd :: r => match depth with O => false | S d => tuple_expr_scan r d end
-  | KComma :: r => match depth with O => true | S _ => tuple_expr_scan r depth end
-  | _ :: r => tuple_expr_scan r depth
+  | KParenBegin :: r | KArrayBegin :: r | KBlockBegin :: r => tuple_expr_scan r (S depth) in_lambda
+  | KParenEnd :: r => match depth with O => false | S d => tuple_expr_scan r d in_lambda end
+  | KArrayEnd :: r | KBlockEnd :: r => tuple_expr_scan r (Nat.pred depth) in_lambda       (* saturating_sub(1) *)
+  | KLambdaArgBeginEnd :: r =>
+      match depth with O => tuple_expr_scan r depth (negb in_lambda) | S _ => tuple_expr_scan r depth in_lambda end
+  | KComma :: r =>
+      match depth with
+      | O => if in_lambda then tuple_expr_scan r depth in_lambda else true
+      | S _ => tuple_expr_scan r depth in_lambda
+      end
+  | _ :: r => tuple_expr_scan r depth in_lambda
   end.
 Definition is_tuple_expr (st : pstate) : bool :=
   match peek st with
-  | Some KParenBegin => tuple_expr_scan (kinds_from st 1) 0
+  | Some KParenBegin => tuple_expr_scan (kinds_from st 1) 0 false
   | _ => false
   end.
 
